@@ -275,6 +275,7 @@ contract(V3 + ".data_received",
          raises={},
          ensures={"buffer_is_the_unconsumed_tail": "self._buffer == S[final('b'):pos2] and b0 <= final('b') <= pos2",
                   "nothing_deliverable_is_withheld": "not holds_complete_packet(self._buffer)"},
+         local_roles={"start": "assigned_from:.find(", "total_size": "assigned_from:int.from_bytes("},
          loops={"0": {
              "match": "len(self._buffer) > 0",
              "ghost_init": {"b": "b0", "st": "0", "en": "0"},
@@ -398,6 +399,7 @@ contract(LANC + ".send",
                   "c01.stale_frames_are_drained_before_the_request_goes_out": "events('io')[0] == 'drain' and 'tx' in events('io')",
                   "c01.everything_available_is_returned": "events('io')[-1] == 'drain'",
                   "data_goes_out_on_the_current_connection": "all(same_object(t, self._protocol._transport) for t in events('tx_on'))"},
+         local_roles={"packet": "assigned_from:_Packet.encode", "responses": "returned"},
          loops={"0": {"match": "_read_available", "havoc": {"responses": "list:bytes"}},
                 "1": {"match": "retries > 0", "ghost_init": {"n": "0"}, "havoc": {"n": "int[0,8]", "responses": "list:bytes"},
                       "modifies": ["self._protocol._packet_id", "self._protocol._queue"],
